@@ -50,8 +50,19 @@ func (x *X) touchArgs(env *Env, e *ast.CallExpr) *touchSet {
 				base := x.eval(env, sel.X)
 				if p, ok := base.V.(Ptr); ok && p.Kind == pObj && len(p.Path) == 0 {
 					root := base.T.Underlying().(*types.Pointer).Elem()
-					k := objLoc(root, p.Obj).field(sel.Sel.Name).key
-					ts.fieldRefs[k] = append(ts.fieldRefs[k], p.Obj)
+					fl := objLoc(root, p.Obj).field(sel.Sel.Name)
+					if st, ok := root.Underlying().(*types.Struct); ok {
+						for i := 0; i < st.NumFields(); i++ {
+							if at, isArr := st.Field(i).Type().Underlying().(*types.Array); isArr && st.Field(i).Name() == sel.Sel.Name {
+								// an array field: the array inside the object
+								ts.arrs = append(ts.arrs, typedRef{x.interiorArr(fl), typeKey(at.Elem())})
+								fl.key = ""
+							}
+						}
+					}
+					if fl.key != "" {
+						ts.fieldRefs[fl.key] = append(ts.fieldRefs[fl.key], p.Obj)
+					}
 					continue
 				}
 			}
